@@ -12,6 +12,7 @@ use crate::util::{guard, hash64, hash_bytes, Ctx, Rng};
 pub fn run(ctx: &mut Ctx) {
     files(ctx);
     page_exact(ctx);
+    four_gibibits(ctx);
 }
 
 // Files whose size is an exact number of pages and whose last structure is a raw / integer vector, with an
@@ -168,6 +169,34 @@ pub fn view(map: &MemoryMap, offset: usize, item: &Item) -> Result<(usize, usize
             Ok((m.map_offset(), m.map_len(), same))
         },
     }
+}
+
+// One structure with more than 2^32 set bits (half a gibibyte of ones): counts that no longer fit 32 bits. Thorough tier
+// only (it writes and maps a 512 MiB file).
+fn four_gibibits(ctx: &mut Ctx) {
+    if cfg!(miri) || ctx.quick() || !ctx.mine(3) || !ctx.begin_case() { return; }
+    let n: usize = (1usize << 32) + 65_536 + 17;
+    let name = format!("{}/vmon-c13-4g-{}-{}", ctx.tmpdir, std::process::id(), ctx.shard);
+    let r = guard(|| -> Result<(usize, usize, bool, bool, usize), String> {
+        let raw = RawVector::with_len(n, true);
+        let ones = raw.count_ones();
+        {
+            let mut f = std::io::BufWriter::new(std::fs::File::create(&name).map_err(|e| e.to_string())?);
+            vec![7u64, 8, 9].serialize(&mut f).map_err(|e| e.to_string())?;
+            raw.serialize(&mut f).map_err(|e| e.to_string())?;
+            "behind".to_string().serialize(&mut f).map_err(|e| e.to_string())?;
+            std::io::Write::flush(&mut f).map_err(|e| e.to_string())?;
+        }
+        drop(raw);
+        let map = MemoryMap::new(&name, MappingMode::ReadOnly).map_err(|e| e.to_string())?;
+        let m = RawVectorMapper::new(&map, 4).map_err(|e| e.to_string())?;
+        let next = MappedStr::new(&map, m.map_offset() + m.map_len()).map_err(|e| e.to_string())?;
+        Ok((ones, m.count_ones(), m.len() == n, &*next == "behind", m.map_len()))
+    });
+    let _ = std::fs::remove_file(&name);
+    ctx.expect_eq("view.RawVector.4gibibits", || format!("(count_ones before writing, count_ones through the mapper, len equal, next structure found, map_len) for a raw vector of {} set bits", n), &r, &Ok((n, n, true, true, 2 + (n + 63) / 64)));
+    ctx.case(hash64(&[0x4613, n as u64]), true);
+    ctx.sample(|| format!("4 gibibits: a raw vector of {} set bits between two other structures in one mapped file", n));
 }
 
 fn all_kinds() -> Vec<Item> {
